@@ -31,6 +31,21 @@ var c13Lists = []scen.ListSpec{
 	{ID: -3, Text: "*$denyallow=example.com|hosts.test,dnstype=TXT\n||blocked.test^$ctag=~pc\n@@||ads.example.com^$script\n||example.org^$third-party\n||example.org^"}, // the text of a rule of list A again; last line without a terminator
 }
 
+func init() {
+	// 18 rewrites for one name (more rules than any small buffer holds), and a
+	// $client rule with ten subnets and a name
+	var sb strings.Builder
+	for i := 0; i < 18; i++ {
+		fmt.Fprintf(&sb, "||big.test^$dnsrewrite=10.0.0.%d\n", i)
+	}
+	sb.WriteString("||kid.test^$client=kid-laptop")
+	for i := 0; i < 10; i++ {
+		fmt.Fprintf(&sb, "|10.%d.0.0/16", i)
+	}
+	sb.WriteString("\n")
+	c13Lists[1].Text += sb.String()
+}
+
 type c13Op struct {
 	name  string
 	query *scen.Query
@@ -56,6 +71,9 @@ func c13Ops() []c13Op {
 		{name: "dns TXT blocked.test ($denyallow rule)", query: d("blocked.test", 16, "", ""), slot: -1},
 		{name: "dns EXAMPLE.org (the name of another query in another letter case)", query: d("EXAMPLE.org", 1, "", ""), slot: -1},
 		{name: "dns xample.org (matches nothing; shares shortcut windows with the example.org rules)", query: d("xample.org", 1, "", ""), slot: -1},
+		{name: "dns big.test (18 matching rules, held)", query: d("big.test", 1, "", ""), slot: 7},
+		{name: "dns kid.test as tv/192.168.1.5", query: d("kid.test", 1, "tv", "192.168.1.5"), slot: -1},
+		{name: "dns kid.test as kid-laptop/192.168.1.5", query: d("kid.test", 1, "kid-laptop", "192.168.1.5"), slot: -1},
 		{name: "dns blocked.test anonymous", query: d("blocked.test", 1, "", ""), slot: -1},
 		{name: "dns tagged.test A no tags", query: d("tagged.test", 1, "", ""), slot: -1},
 		{name: "netall example.org/ads from example.org", query: q("netall", "http://example.org/ads?u=example.org", "http://example.org/", rules.TypeScript), slot: -1},
@@ -149,7 +167,7 @@ func (m *c13Model) step(e *scen.Engines, pool *vsyncutil.Pool[rules.Request], he
 		case op.query != nil:
 			var ans string
 			switch op.slot {
-			case 0, 1, 6:
+			case 0, 1, 6, 7:
 				res, ok := e.DNS.MatchRequest(op.query.DNSRequest())
 				h := &c13Held{dns: res, ok: ok}
 				h.snap = h.render() // taken before any derived evaluation
@@ -324,9 +342,9 @@ func init() {
 			// main pass: de-duplicated search to the fixpoint (or the depth bound)
 			maxDepth := 0 // thorough: until the frontier is empty (fixpoint); the deadline guards it
 			if !c.Thorough() {
-				maxDepth = 5 // quick: every history of up to 5 operations (de-duplicated), String-backed; 4 File-backed
+				maxDepth = 4 // quick: every history of up to 4 operations (de-duplicated), String-backed; 3 File-backed
 				if file {
-					maxDepth = 4
+					maxDepth = 3
 				}
 			}
 			s := statespace.BFS(model, maxDepth, true, c.Workers, c.Deadline)
@@ -344,6 +362,53 @@ func init() {
 				c.Run.Sample(map[string]any{"history": []string{ops[3].name, ops[len(ops)-6].name, ops[3].name, ops[len(ops)-5].name}})
 			}
 		}
+		// repetition layer: every query 40 times in a row on one engine, and the
+		// whole query list 12 times round-robin: each answer equals the fresh one
+		// (something that happens on every Nth call, or from the Nth call on, shows)
+		var repEvals int64
+		for _, file := range []bool{false, true} {
+			m := &c13Model{c: c, file: file, ops: ops}
+			e, st, _ := scen.Build(c13Lists, file)
+			fresh := map[int]string{}
+			for oi, op := range ops {
+				if op.query == nil {
+					continue
+				}
+				e2, st2, _ := scen.Build(c13Lists, file)
+				fresh[oi] = e2.Answer(*op.query)
+				st2.Close()
+			}
+			ask := func(oi, round int, how string) bool {
+				repEvals++
+				if got := e.Answer(*ops[oi].query); got != fresh[oi] {
+					m.violate("answer-equals-fresh-engine", map[string]any{"query": ops[oi].name, "file": file, "repetition": how},
+						fmt.Sprintf("%s, asked for the %dth time (%s): %s; a fresh engine answers %s", ops[oi].name, round+1, how, got, fresh[oi]), []int{oi})
+					return false
+				}
+				return true
+			}
+		rep:
+			for oi, op := range ops {
+				if op.query == nil {
+					continue
+				}
+				for round := 0; round < 40; round++ {
+					if !ask(oi, round, "in a row") {
+						break rep
+					}
+				}
+			}
+			for round := 0; round < 12; round++ {
+				for oi, op := range ops {
+					if op.query != nil && !ask(oi, round, "round-robin over all queries") {
+						round = 12
+						break
+					}
+				}
+			}
+			st.Close()
+		}
+		c.Run.Set("repetition_layer_evaluations", repEvals)
 		fix, complete := true, true
 		for _, s := range statsOut {
 			if f, _ := s["fixpoint"].(bool); !f {
@@ -367,7 +432,7 @@ func init() {
 		// any length is covered
 		c.Run.Set("exhaustive", complete)
 		if !c.Thorough() {
-			c.Run.Set("depth_bound", "5 (String-backed), 4 (File-backed)")
+			c.Run.Set("depth_bound", "4 (String-backed), 3 (File-backed)")
 		} else {
 			c.Run.Set("depth_bound", "none (until the frontier is empty or the deadline)")
 		}
